@@ -102,7 +102,8 @@ class ASPAtom(ASPElement):
         if not isinstance(other, ASPAtom):
             return False
         return self.name == other.name and self.attributes == other.attributes and self.negated == other.negated \
-               and self.is_initial == other.is_initial and self.is_after == other.is_after and self.is_before == other.is_before
+               and self.is_initial == other.is_initial and self.is_final == other.is_final \
+               and self.is_after == other.is_after and self.is_before == other.is_before
 
     def __repr__(self):
         return str(self)
